@@ -119,6 +119,10 @@ class Engine(object):
         self.samples = []
         self.frontier = []
         self.leftover = []
+        self.classify = None
+        self.known = set()
+        self.known_hits = []
+        self.known_count = {}
         self.inconclusive = []
         self.inconclusive_paths = 0
         self.complete = True
@@ -325,6 +329,16 @@ class Engine(object):
             case = witness(mv)
         v = {"label": label, "case": case, "detail": detail() if callable(detail) else detail,
              "trace": list(self.trace)}
+        if self.classify is not None and case is not None:
+            # a counterexample that carries the signature of a finding recorded in known_findings.txt is kept apart (a few
+            # examples, replayed later) and does not stop the exploration: other violations must still be found
+            sig = self.classify(case)
+            if sig is not None and sig in self.known:
+                self.known_count[sig] = self.known_count.get(sig, 0) + 1
+                if self.known_count[sig] <= 2:
+                    v["known_signature"] = sig
+                    self.known_hits.append(v)
+                return False
         self.violations.append(v)
         if len(self.violations) >= self.max_violations:
             raise StopExploration()
